@@ -55,7 +55,7 @@ type c12Expr struct {
 	fail bool // fails at evaluation
 }
 
-var c12KeyPool = []string{"p1", "p2", "k001", "k002", "a", "zz", "new key", "K"}
+var c12KeyPool = []string{"p1", "p2", "k001", "k002", "a", "zz", "new key", "K", "caf\xc3\xa9", "na\xc3\xafve", "\xe6\x97\xa5\xe6\x9c\xac", "\xc3\xa9a"}
 
 func c12Failing(r *rt.Rand, text bool) *gen.Node {
 	// run-time failures the checker cannot see
@@ -106,6 +106,9 @@ func c12KeyExpr(r *rt.Rand) *gen.Node {
 		}
 		return gen.Bin("+", gen.Str("p"), gen.Call("str", gen.Int(int64(r.Range(1, 3)))))
 	case 4:
+		if r.Chance(1, 3) {
+			return gen.Call("join", gen.Str("/"), gen.Str(""), gen.Str("usr"), gen.Str([]string{"bin", "lib", "cr\xc3\xa8me br\xc3\xbbl\xc3\xa9e"}[r.Intn(3)]))
+		}
 		return gen.Call("upper", gen.Str([]string{"ka", "kb", "p1"}[r.Intn(3)]))
 	case 5:
 		return gen.Bin("+", gen.Int(int64(r.Range(1, 5))), gen.Int(int64(r.Range(1, 5))))
@@ -132,7 +135,7 @@ func c12ValExpr(r *rt.Rand) (*gen.Node, bool) {
 	case 10:
 		return gen.Call("len", gen.Call("list", gen.Int(1), gen.Int(2), gen.Int(3))), false
 	case 0:
-		return gen.Str([]string{"v1", "", "x,y", "it is"}[r.Intn(4)]), false
+		return gen.Str([]string{"v1", "", "x,y", "it is", "cr\xc3\xa8me br\xc3\xbbl\xc3\xa9e", "\xc3\xbc"}[r.Intn(6)]), false
 	case 1:
 		return gen.Bin("+", gen.Str("v_"), gen.Key()), true
 	case 2:
@@ -140,6 +143,9 @@ func c12ValExpr(r *rt.Rand) (*gen.Node, bool) {
 	case 3:
 		return gen.Bin("*", gen.Int(int64(r.Range(0, 9))), gen.Int(int64(r.Range(1, 9)))), false
 	case 4:
+		if r.Chance(1, 3) { // leading empty elements: the separator still stands between all of them
+			return gen.Call("join", gen.Str([]string{"/", ":", "-"}[r.Intn(3)]), gen.Str(""), gen.Str(""), gen.Key(), gen.Str("bin")), true
+		}
 		return gen.Call("join", gen.Str(","), gen.Int(int64(r.Intn(5))), gen.Key(), gen.Str("z")), true
 	case 5:
 		return gen.Call("strlen", gen.Key()), true
